@@ -104,6 +104,17 @@ def spell(t, nsname) -> str:
     if isinstance(t, Ref):
         return f"{nsname}::n{t.id}"
     pre = "tao::pegtl::" if t.ns == 'pub' else "tao::pegtl::internal::"
+    if t.ns == 'pub' and t.name == 'if_then_chain':
+        # pseudo rule for the member aliases of contrib/if_then.hpp: args = ( N pairs, C1, T1, …, CN, TN [, Else] ) is spelled
+        # if_then< C1, T1 >::else_if_then< C2, T2 >::…[::else_then< Else >]
+        np = t.args[0][1]
+        xs = [spell_arg(x, nsname) for x in t.args[1:]]
+        out = f"tao::pegtl::if_then< {xs[0]}, {xs[1]} >"
+        for k in range(1, np):
+            out += f"::else_if_then< {xs[2 * k]}, {xs[2 * k + 1]} >"
+        if len(xs) > 2 * np:
+            out += f"::else_then< {xs[2 * np]} >"
+        return out
     if not t.args and t.name in NON_TEMPLATES:
         return pre + t.name
     return pre + t.name + "< " + ", ".join(spell_arg(a, nsname) for a in t.args) + " >"
@@ -141,7 +152,7 @@ def public_base(t: T):
     simple = {'at', 'disable', 'enable', 'not_at', 'opt', 'partial', 'plus', 'rematch', 'rep', 'rep_min_max',
               'rep_opt', 'seq', 'sor', 'star', 'star_partial', 'star_strict', 'strict', 'until', 'if_then_else',
               'must', 'bytes', 'require', 'string', 'istring', 'minus', 'rep_min', 'if_must_else', 'star_must',
-              'pad_opt', 'rep_one_min_max', 'rep_string', 'separated_seq', 'if_then'}
+              'pad_opt', 'rep_one_min_max', 'rep_string', 'separated_seq', 'if_then', 'if_then_chain'}
     if n in simple:
         return I(n, *a)
     if n in ('eof', 'bof', 'bol', 'eolf', 'success', 'failure', 'identifier', 'identifier_first', 'identifier_other'):
@@ -283,8 +294,16 @@ def expand_alias(t: T):
                 parts.append(sep)
             parts.append(r)
         return I('seq', *parts)
-    if n == 'if_then' and a:       # if_then< C, T... > : internal::if_then< if_pair< C, seq< T... > > > : if_then_else< C, seq< T... >, internal::if_then<> >
-        return I('if_then_else', a[0], I('seq', *a[1:]), I('if_then'))
+    if n == 'if_then' and a and not (isinstance(a[0], T) and a[0].name == 'if_pair'):
+        # if_then< C, T... > : internal::if_then< if_pair< C, seq< T... > > >   (body_of_internal: if_then_else< C, seq< T... >, internal::if_then<> >)
+        return I('if_then', I('if_pair', a[0], I('seq', *a[1:])))
+    if n == 'if_then_chain':       # internal::if_then< if_pair< C1, seq< T1 > >, …, [ if_pair< success, seq< Else > > ] >, each level an if_then_else
+        np = a[0][1]
+        pairs = [I('if_pair', a[1 + 2 * k], I('seq', a[2 + 2 * k])) for k in range(np)]
+        if len(a) > 1 + 2 * np:      # else_then: if_then_else< C1, Then1, if_then< Pairs..., if_pair< success, seq< Else > > > >
+            pairs.append(I('if_pair', I('success'), I('seq', a[1 + 2 * np])))
+            return I('if_then_else', pairs[0].args[0], pairs[0].args[1], I('if_then', *pairs[1:]))
+        return I('if_then', *pairs)
     if n == 'star_must':
         return I('star', I('if_must', B(False), *a))
     if n == 'if_must_else':
@@ -535,6 +554,8 @@ def body_of_internal(t: T):
         return ('control', [a[0], ty[0]])
     if n == 'if_then' and not a:     # internal::if_then<> : failure (hidden)
         return ('atom', ['failure'])
+    if n == 'if_then':               # internal::if_then< if_pair< C, Then >, Pairs... > : if_then_else< C, Then, if_then< Pairs... > >
+        return ('ifThenElse', [a[0].args[0], a[0].args[1], I('if_then', *a[1:])])
     if n == 'if_apply':
         acts = [x[1] for x in a if not is_type(x) and x[0] == 'r']
         return ('ifApply', [ty[0], acts])
